@@ -1114,8 +1114,8 @@ class Choice(object):
                 # check for context encoding
                 if element.context is None:
                     raise NotImplementedError("choice of a SequenceOf must be context encoded")
-                # match the context tag number
-                if tag.tagClass != Tag.contextTagClass or tag.tagNumber != element.context:
+                # match the opening tag
+                if tag.tagClass != Tag.openingTagClass or tag.tagNumber != element.context:
                     continue
                 taglist.Pop()
 
